@@ -123,6 +123,12 @@ class Scratch:
             with open(target, "a") as fh:
                 fh.write(f"\n#[cfg(kani)]\n#[path = \"{os.path.join(self.hdir, h.file)}\"]\nmod {h.inject['mod']};\n")
 
+    def disable(self, files):
+        """blank out harness files (they stay injected, but contain nothing)"""
+        for f in files:
+            with open(os.path.join(self.hdir, f), "w") as fh:
+                fh.write("// disabled: does not compile against the current /repo\n")
+
     def cleanup(self):
         if not self.keep:
             shutil.rmtree(self.dir, ignore_errors=True)
@@ -215,6 +221,26 @@ def run(scratch, harnesses, jobs=12, logdir=None, mem_gb=float(os.environ.get("V
         # phase 1: code generation (no memory cap; compile errors show up here)
         log1 = os.path.join(logdir, f"codegen-{crate}-{group}.log")
         rc, dt = _cargo_kani(scratch, crate, hs, flags + ["--only-codegen"], log1, timeout=1800)
+        attempts = 0
+        while rc != 0 and attempts < 3:
+            # a harness file that no longer compiles against /repo takes the whole build down: mark
+            # its harnesses inconclusive, disable that file and go on with the others
+            attempts += 1
+            bad = _files_with_errors(log1, scratch)
+            tail = _tail(log1, 60)
+            if not bad:
+                break
+            for h in [h for h in hs if h.file in bad]:
+                r = results[h.pretty]
+                r.status = "inconclusive"
+                r.reason = f"harness file {h.file} no longer compiles against /repo (an item it names changed)"
+                r.log = tail
+            scratch.disable(bad)
+            hs = [h for h in hs if h.file not in bad]
+            if not hs:
+                rc = 0
+                break
+            rc, dt = _cargo_kani(scratch, crate, hs, flags + ["--only-codegen"], log1, timeout=1800)
         if rc != 0:
             tail = _tail(log1, 60)
             for h in hs:
@@ -222,6 +248,8 @@ def run(scratch, harnesses, jobs=12, logdir=None, mem_gb=float(os.environ.get("V
                 r.status = "inconclusive"
                 r.reason = "codegen failed (harness no longer compiles against /repo, or build error)"
                 r.log = tail
+            continue
+        if not hs:
             continue
         # phase 2: verification
         tmax = max(h.timeout for h in hs)
@@ -232,6 +260,20 @@ def run(scratch, harnesses, jobs=12, logdir=None, mem_gb=float(os.environ.get("V
         rc, dt = _cargo_kani(scratch, crate, hs, extra, log2, timeout=tmax * (nwaves + 1) + 600, mem_gb=mem_gb)
         _parse(out_json, log2, hs, results)
     return results
+
+
+def _files_with_errors(log, scratch):
+    """harness files (relative to the harness dir) named in rustc error locations"""
+    bad = set()
+    try:
+        txt = open(log, errors="replace").read()
+    except OSError:
+        return bad
+    for m in re.finditer(r"^error(?:\[E\d+\])?:.*?\n\s*--> ([^\n:]+):\d+:\d+", txt, re.M | re.S):
+        path = m.group(1).strip()
+        if path.startswith(scratch.hdir):
+            bad.add(os.path.relpath(path, scratch.hdir))
+    return bad
 
 
 def _tail(path, n):
